@@ -1319,7 +1319,11 @@ def v_group_by(t, exprs, add, handles, mode):
             raise RefReject("ValueError", "cannot group by non-selected column")
         ids.append(cid)
     new = t.copy()
-    new.group = (list(t.group) + ids) if add else ids
+    out = list(t.group) if add else []
+    for i in ids:
+        if i not in out:  # the grouping state is a set of columns
+            out.append(i)
+    new.group = out
     return new
 
 
